@@ -57,6 +57,9 @@ SpawnViol(ev) ==
            (id \in env.tohold \/ (env.holdpt # NoPoint /\ Pt(id) > env.holdpt)) => t.held)
   \cup Chk("C46_NothingBeforeStart", Opt.manual \/ Pt(id) >= W.start)
   \cup Chk("C08_ChildCarriesParentFlows", ev.haspar => ev.parflows \subseteq t.flows)
+  \cup Chk("C32_OnlyExpireChildren",
+           (ev.haspar /\ ev.parout = "expired") =>
+              \E c \in Children(W, Name(ev.parid), Pt(ev.parid), "expired") : c.t = Name(id) /\ c.p = Pt(id))
 MergeViol(ev) ==
      Chk("C08_MergeIsUnion", ev.after = (IF ev.added = {} THEN ev.before ELSE ev.before \cup ev.added))
   \cup Chk("C08_ChildCarriesParentFlows", ev.before \subseteq ev.after)
@@ -64,6 +67,7 @@ FlowViol(ev) ==
      Chk("C08_NewFlowIsFresh", (ev.asked = -1) => (ev.got \notin env.flowsEver /\ ev.got \notin ev.known
                                                    /\ \A x \in env.flowsEver : ev.got > x))
 SpawnCov(ev) == {"C07_PoolWithinBounds", "C26_NoDuplicateProxy"} \cup Cov("C08_ChildCarriesParentFlows", ev.haspar)
+  \cup Cov("C32_OnlyExpireChildren", ev.haspar /\ ev.parout = "expired")
   \cup Cov("C08_ChildCarriesSeveralFlows", ev.haspar /\ Cardinality(ev.parflows) > 1)
   \cup Cov("C06_FutureHoldApplies", ev.t.id \in env.tohold \/ (env.holdpt # NoPoint /\ Pt(ev.t.id) > env.holdpt))
 
@@ -101,6 +105,9 @@ StateViol(ev) ==
            released => Pt(id) <= RunaheadLimit(W, Min(PoolPoints), SpecMaxFut, StopPt))
   \cup Chk("C06_HeldNeverPrepared", (t.st = "preparing" /\ b.st # "preparing") => (~b.held \/ t.manual \/ b.manual))
   \cup Chk("C32_OnlyWaitingExpires", (t.st = "expired" /\ b.st # "expired" /\ ~ev.forced) => (b.st = "waiting" /\ ~b.manual))
+  \cup Chk("C32_NotBeforeExpiryTime",
+           (t.st = "expired" /\ b.st # "expired" /\ ~ev.forced) =>
+              (Name(id) \in DOMAIN W.expire /\ env.clock >= W.expire[Name(id)][Pt(id)]))
   \cup Chk("C29_NeverActiveByForce", ev.forced => ~(t.st \in {"submitted", "running"} /\ b.st # t.st))
 StateCov(ev) ==
   LET b == ev.b  t == ev.t IN
@@ -109,6 +116,7 @@ StateCov(ev) ==
   \cup Cov("C04_ReleaseWithinLimit", b.rh /\ ~t.rh /\ t.st = "waiting" /\ ~t.manual)
   \cup Cov("C06_HeldNeverPrepared", t.st = "preparing" /\ b.st # "preparing")
   \cup Cov("C32_OnlyWaitingExpires", t.st = "expired" /\ b.st # "expired")
+  \cup Cov("C32_NotBeforeExpiryTime", t.st = "expired" /\ b.st # "expired" /\ ~ev.forced)
 
 \* prepare: a task enters job preparation (a job will be submitted)
 OthersActive(id) == {j \in DOMAIN pool : j # id /\ Name(j) = Name(id) /\ pool[j].st \in ActiveStatuses}
@@ -132,10 +140,13 @@ PrepareViol(ev) ==
   \cup Chk("C31_NoOverlap", (nm \in W.seqtasks /\ auto) => OthersActive(id) = {})
   \cup Chk("C31_AfterPreviousSucceeded", (nm \in W.seqtasks /\ auto) => SeqPrereqSat(W, nm, p, done))
   \cup Chk("C46_NothingBeforeStart", auto => p >= W.start)
-  \cup Chk("C32_ExpiredNeverSubmits", ~("expired" \in t.outs))
+  \* (an operator may deliberately re-run an expired task: manual triggers are not the scheduler's doing)
+  \cup Chk("C32_ExpiredNeverSubmits", ~ev.manual => ~("expired" \in t.outs))
+  \* (an instance that also belongs to a flow in which it has not finished yet runs on behalf of that flow:
+  \*  flows merge when one catches up with the other)
   \cup Chk("C08_NoRerunInFlow",
-           (~ev.manual /\ id \notin env.trig.ids) =>
-              ~\E c \in env.completedIn : c[1] = id /\ c[2] \cap t.flows # {} /\ ~h.retry)
+           (~ev.manual /\ id \notin env.trig.ids /\ ~h.retry /\ t.flows # {}) =>
+              ~(t.flows \subseteq UNION {c[2] : c \in {x \in env.completedIn : x[1] = id}}))
   \cup Chk("C28_EachMemberOnce", (id \in env.trig.ids /\ env.trig.dflt) => (env.trig.n[id] <= 0 \/ h.retry))
   \cup Chk("C28_InGroupOrder",
            \* (judged for triggers into the task's own flows, and for members without a live job at the time)
@@ -160,6 +171,7 @@ PrepareCov(ev) ==
   \cup Cov("C08_NoRerunInFlow", \E c \in env.completedIn : c[1] = id)
   \cup Cov("C43_NoSubmitBeyondStopPoint", env.stop # NoPoint)
   \cup Cov("C46_NothingBeforeStart", W.start > W.icp)
+  \cup Cov("C32_ExpiredNeverSubmits", Name(ev.t.id) \in DOMAIN W.expire)
   \cup Cov("C31_AfterPreviousSucceeded", nm \in W.seqtasks /\ PrevPoint(W, nm, Pt(id)) # NoPoint)
 
 \* msg: TaskEventsManager.process_message returned
@@ -207,6 +219,15 @@ MsgViol(ev) ==
               IN (eff.r.st = t.st /\ eff.r.outs = t.outs /\ eff.ret = ev.ret)
                  \/ PrintT(<<"DIAG", tid, "msgeffect", l, ev.msg, ev.flag, b.st, b.outs, "predicted", eff.r.st, eff.r.outs, eff.ret,
                              "logged", t.st, t.outs, ev.ret>>) = FALSE)
+  \* the expire children exist once the expired output is complete (spawn events precede this one), unless they
+  \* lie outside the graph bounds / beyond the stop point or have run already
+  \cup Chk("C32_ExpireChildrenSpawned",
+           (ev.msg = "expired" /\ "expired" \in t.outs /\ "expired" \notin b.outs /\ ev.inpool /\ ~ev.forced /\ t.flows # {}) =>
+              \A c \in Children(W, nm, Pt(id), "expired") :
+                 (InBounds(W, c.p) /\ c.p <= StopPt /\ c.p >= W.start) =>
+                    \/ <<c.t, c.p>> \in DOMAIN pool
+                    \/ HistOf(<<c.t, c.p>>).n > 0
+                    \/ \E x \in env.completedIn : x[1] = <<c.t, c.p>>)
   \cup Chk("C02_FailOutputOnlyWhenNoRetry", (newfail /\ ~Opt.manual) => h.efail >= W.eretry[nm])
   \cup Chk("C02_SubmitFailOutputOnlyWhenNoRetry", (newsubfail /\ ~Opt.manual) => h.sfail >= W.sretry[nm])
 MsgCov(ev) ==
@@ -221,6 +242,8 @@ MsgCov(ev) ==
   \cup Cov("C10_DuplicateWhileRetryWaiting", ev.flag = "received" /\ ev.inpool /\ b.st = "waiting"
                                                 /\ <<t.id, ev.sub, ev.msg>> \in env.seenMsgs)
   \cup Cov("C29_ImpliedAndExact", ev.forced)
+  \cup Cov("C32_ExpireChildrenSpawned", ev.msg = "expired" /\ "expired" \in t.outs /\ "expired" \notin b.outs
+                                          /\ Children(W, Name(t.id), Pt(t.id), "expired") # {})
 
 \* q_release: IndepQueueManager released tasks
 QMembers(ev, q) == ev.members[q]
@@ -263,6 +286,9 @@ SyncRec(ev, i) == LET j == CHOOSE k \in DOMAIN ev.pool : ev.pool[k].id = i IN ev
 DbRows(ev) == Range(ev.dbpool)
 Scalars(ev) == [stop_point |-> ev.stop_point, hold_point |-> ev.hold_point, tasks_to_hold |-> ev.tasks_to_hold,
                 flow_counter |-> ev.flow_counter, stop_task |-> ev.stop_task]
+\* waiting, not manually triggered, expiry time reached
+DueNow(ev) == {i \in SyncIds(ev) : LET s == SyncRec(ev, i) IN
+                 s.st = "waiting" /\ ~s.manual /\ Name(i) \in DOMAIN W.expire /\ env.clock >= W.expire[Name(i)][Pt(i)]}
 LoopEndViol(ev) ==
      Chk("C26_CacheIsTruth", Range(ev.cached) = SyncIds(ev) /\ Len(ev.cached) = Cardinality(SyncIds(ev))
                                /\ ev.cache_identical)   \* the very same proxies, not stale look-alikes
@@ -273,6 +299,8 @@ LoopEndViol(ev) ==
   \cup Chk("Conf_PoolSync", SyncIds(ev) = DOMAIN pool /\ \A i \in DOMAIN pool :
               LET s == SyncRec(ev, i) IN s.st = pool[i].st /\ s.outs = pool[i].outs /\ s.rh = pool[i].rh
                                           /\ s.queued = pool[i].queued /\ s.held = pool[i].held /\ s.flows = pool[i].flows)
+  \* (clock_expire_tasks runs in every iteration: a task that was due at the end of the previous one is gone)
+  \cup Chk("C32_DueTasksExpire", env.dueprev \cap DueNow(ev) = {})
   \cup Chk("C04_MaxFutFromPool",
            ev.maxfut <= (LET S == {TaskMaxFut(W, Name(i)) : i \in SyncIds(ev)} IN IF S = {} THEN 0 ELSE Max(S)))
   \cup Chk("C45_AllInstancesSatisfied",
@@ -288,6 +316,7 @@ LoopEndViol(ev) ==
 LoopEndCov(ev) ==
      {"C26_CacheIsTruth", "C26_NoEmptyBucket"}
   \cup Cov("C26_DbPoolMatches", ev.hasdb /\ ev.pool # <<>>)
+  \cup Cov("C32_DueTasksExpire", env.dueprev # {})
   \cup Cov("C43_StopPointKept", env.cmdStop # NoPoint)
   \cup Cov("C43_StopPointKeptAcrossReload", env.cmdStop # NoPoint /\ env.cmdname = "reload_workflow")
   \cup Cov("C11_RetainedOnlyIfIncomplete", \E i \in SyncIds(ev) : SyncRec(ev, i).st \in FinalStatuses)
@@ -308,9 +337,9 @@ DsViol(ev) ==
      Chk("C25_StoreMatchesPool", \A i \in SyncIds(ev) : StoreOK(ev, ev.store, i)
                                     \/ PrintT(<<"DIAG", tid, "store", i, SyncRec(ev, i),
                                                 IF i \in DOMAIN ev.store THEN ev.store[i] ELSE "absent">>) = FALSE)
-  \cup Chk("C25_ClientConverges", ev.diffclass \in {"none", "dup-edge-refs"} /\ ev.checksum_ok)
+  \cup Chk("C25_ClientConverges", ev.diffclass \in {"none", "dup-refs"} /\ ev.checksum_ok)
   \* recorded separately (known finding): the client ends up with repeated entries in a node's list of edge ids
-  \cup Chk("C25_ClientConverges_DuplicateEdgeRefs", ev.diffclass # "dup-edge-refs")
+  \cup Chk("C25_ClientConverges_DuplicateRefs", ev.diffclass # "dup-refs")
   \cup Chk("C25_ClientMatchesPool", DOMAIN ev.client # {} => \A i \in SyncIds(ev) : StoreOK(ev, ev.client, i))
 DsCov(ev) == Cov("C25_StoreMatchesPool", SyncIds(ev) # {}) \cup Cov("C25_ClientConverges", DOMAIN ev.client # {})
              \cup Cov("C25_StoreMatchesPool_Held", \E i \in SyncIds(ev) : SyncRec(ev, i).held)
@@ -357,7 +386,11 @@ CmdDoneViol(ev) ==
               \A i \in DOMAIN pre \ ids :
                  IF i \in SyncIds(ev) THEN SyncRec(ev, i).outs = pre[i].outs /\ SyncRec(ev, i).flows = pre[i].flows
                                              /\ SyncRec(ev, i).st = pre[i].st
-                 ELSE pre[i].st = "waiting" /\ pre[i].sub = 0)
+                 \* gone from the pool: only a waiting child all of whose satisfied prerequisites were
+                 \* naturally satisfied by the removed instances
+                 ELSE /\ pre[i].st = "waiting"
+                      /\ \E k \in pre[i].sat : <<k[1], k[2]>> \in ids
+                      /\ \A k \in pre[i].sat : <<k[1], k[2]>> \in ids /\ k \notin pre[i].fsat)
        \* a prerequisite goes from satisfied to unsatisfied only if it is on a removed instance and was
        \* not force-satisfied; nothing becomes satisfied
        \cup Chk("C30_OnlyNaturalUnset",
@@ -395,6 +428,8 @@ CmdDoneViol(ev) ==
                           /\ (r.outs = pre[i].outs \/ (pre[i].st \in ActiveStatuses /\ pre[i].outs \subseteq r.outs))
                           /\ r.sat = pre[i].sat
                           /\ (~pre[i].rh => ~r.rh)
+                 \* (a task with a job out whose final message was processed during the wait finished and left)
+                 \/ (i \notin SyncIds(ev) /\ pre[i].st \in ActiveStatuses /\ \E c \in env.completedIn : c[1] = i)
                  \/ PrintT(<<"DIAG", tid, "reload", i, pre[i],
                              IF i \in SyncIds(ev) THEN SyncRec(ev, i) ELSE "gone">>) = FALSE)
     [] OTHER -> {}
@@ -509,13 +544,27 @@ QuiescentCov(ev) == Cov("C03_NoStarvation", ~ev.paused /\ ~Opt.stopreq /\ SyncId
 
 \* end of run: closure (only when nothing ended incomplete and the scheduler stopped by itself)
 Launched == {i \in DOMAIN hist : hist[i].n > 0}
+SpawnedByOutput(t, p) == \E d \in done : \E c \in Children(W, d[1], d[2], d[3]) : c.t = t /\ c.p = p
+\* the graph's closure: parentless instances plus children of completed outputs
 Spawnable(t, p) ==
-  \/ (Parentless(W, t, p, W.start) /\ p >= W.start)
-  \/ \E d \in done : \E c \in Children(W, d[1], d[2], d[3]) : c.t = t /\ c.p = p
+  \/ (GraphParentless(W, t, p, W.start) /\ p >= W.start)
+  \/ SpawnedByOutput(t, p)
+\* the instances cylc's spawning can reach: the first parentless point found at start-up (only the first
+\* point of each recurrence is examined), children of completed outputs, and from any instance that got a
+\* proxy the next parentless point (TaskDef.next_point_parentless / TaskPool.spawn_next_parentless)
+RECURSIVE ReachIter(_, _, _)
+ReachIter(t, S, k) ==
+  IF k = 0 THEN S
+  ELSE LET S2 == S \cup ({NextParentless(W, t, q) : q \in S} \ {NoPoint}) IN
+       IF S2 = S THEN S ELSE ReachIter(t, S2, k - 1)
+CylcReach(t) == ReachIter(t, ({NextParentless(W, t, NoPoint)} \ {NoPoint}) \cup {p \in AllPoints(W) : SpawnedByOutput(t, p)},
+                          Cardinality(AllPoints(W)))
 Expected == {i \in W.tasks \X AllPoints(W) :
                /\ ValidPoint(W, i[1], i[2]) /\ i[2] >= W.start /\ i[2] <= StopPt
                /\ Spawnable(i[1], i[2])
                /\ ReadyByGraph(W, i[1], i[2], done)}
+\* graph-parentless instances that cylc's spawning never reaches (known findings, see below)
+NeverReached == {i \in Expected : i[2] \notin CylcReach(i[1])}
 BeyondStopAlt == {i \in W.tasks \X AllPoints(W) :
                     \E L \in Deps(W, i[1], i[2]) : \E a \in Atoms(L.lhs) : AtomPoint(W, a, i[2]) > StopPt}
 \* no instance that the graph spawns is left with prerequisites that can never be satisfied
@@ -529,12 +578,22 @@ EndViol(ev) ==
                /\ ~Opt.stopreq /\ ~Opt.stopmid
       completable == ~Opt.manual /\ ~env.incomplete /\ Opt.allcomplete /\ ~Opt.stopreq /\ ~W.hassuicide /\ NoStuck IN
      Chk("C01_ExactClosure",
-         clean => ((Launched \subseteq Expected /\ (Expected \ Launched) \subseteq BeyondStopAlt)
+         clean => ((Launched \subseteq Expected /\ (Expected \ Launched) \subseteq (BeyondStopAlt \cup NeverReached))
                      \/ PrintT(<<"DIAG", tid, "closure: launched-not-expected", Launched \ Expected,
                                  "expected-not-launched", Expected \ Launched>>) = FALSE))
   \* recorded separately: cylc refuses to spawn an instance any of whose prerequisite atoms lies beyond the
   \* stop point, even when an OR alternative is satisfied (see known_findings.txt)
   \cup Chk("C01_ExactClosure_BeyondStopAlternative", clean => (Expected \ Launched) \cap BeyondStopAlt = {})
+  \* recorded separately: a graph-parentless instance is found only if it is the first point of one of the
+  \* task's recurrences at start-up, or the next point after an instance that got a proxy
+  \*  - a sequential task with graph parents is never treated as parentless (TaskDef.is_parentless), so its
+  \*    first instance never runs when all its graph parents are before the initial point
+  \cup Chk("C01_ExactClosure_SequentialFirstInstanceNeverSpawned",
+           clean => {i \in (Expected \ Launched) \cap NeverReached : i[1] \in W.seqtasks} = {})
+  \*  - a recurrence whose first point has a parent (e.g. through another, overlapping recurrence) is taken
+  \*    to be parented throughout (TaskDef.next_point_parentless), so later parentless points are missed
+  \cup Chk("C01_ExactClosure_ParentlessPointBehindParentedOne",
+           clean => {i \in (Expected \ Launched) \cap NeverReached : i[1] \notin W.seqtasks} = {})
   \cup Chk("C01_ShutsDown", completable => ev.reason = "AUTOMATIC")
   \cup Chk("C04_NoRunaheadDeadlock", completable => ev.reason = "AUTOMATIC")
   \cup Chk("C43_ShutdownWhenNothingLeft", (completable /\ env.stop # NoPoint) => ev.reason = "AUTOMATIC")
@@ -639,6 +698,7 @@ NextEnv(ev) ==
     [] ev.e = "spawn" -> [env EXCEPT !.spawnedSinceBoot = @ \cup {ev.t.id}, !.flowsEver = @ \cup ev.t.flows,
                                      !.rm = IF ev.t.id \in @.ids THEN [@ EXCEPT !.ok = FALSE] ELSE @]
     [] ev.e = "remove_flushed" -> [env EXCEPT !.rm = [@ EXCEPT !.active = FALSE]]
+    [] ev.e = "loop_begin" -> [env EXCEPT !.clock = ev.clock]
     [] ev.e = "flow" -> [env EXCEPT !.flowsEver = @ \cup {ev.got} \cup ev.known]
     [] ev.e = "cmd" ->
          [env EXCEPT !.cmdStop = IF ev.name = "stop" /\ ev.stopcp # NoPoint /\ ev.stopcp <= W.fcp /\ ev.stopcp >= W.icp
@@ -688,6 +748,7 @@ NextEnv(ev) ==
     [] ev.e \in {"loop_end", "boot"} ->
          [env EXCEPT !.stop = ev.stop_point, !.tohold = ev.tasks_to_hold, !.holdpt = ev.hold_point,
                      !.flowctr = ev.flow_counter,
+                     !.dueprev = IF ev.e = "loop_end" THEN DueNow(ev) ELSE {},
                      \* a succeeded signature is forgotten once no pooled task still waits for it
                      !.xtOK = IF ev.e = "loop_end"
                               THEN {g \in @ : \E i \in SyncIds(ev) : g \in SyncRec(ev, i).xneed} ELSE {},
@@ -760,7 +821,7 @@ Init == /\ tid \in DOMAIN Runs
         /\ hist = <<>>
         /\ env = [stop |-> NoPoint, tohold |-> {}, holdpt |-> NoPoint, restarted |-> FALSE, incomplete |-> FALSE,
                   prestop |-> <<>>, prescal |-> <<>>, downkind |-> "none", committed |-> {}, poolcommitted |-> FALSE, lostAtCrash |-> {}, earlyCrash |-> FALSE, hadStopTask |-> FALSE, hadDup |-> FALSE, committedAtCrash |-> {}, jobsSinceBoot |-> {}, spawnedSinceBoot |-> {}, jobs |-> {}, succeeded |-> {}, failedjobs |-> {}, tainted |-> {}, seenMsgs |-> {}, xtActive |-> {}, xtLast |-> <<>>, xtOK |-> {}, xtOKold |-> {}, xtEverOK |-> {}, xtLastOK |-> {}, xtNeeders |-> <<>>, flowsEver |-> {},
-                  trig |-> [ids |-> {}, done |-> {}, n |-> <<>>, dflt |-> FALSE, live |-> {}, stale |-> {}, ran |-> {}], cmdStop |-> NoPoint, rm |-> [active |-> FALSE, ok |-> FALSE, ids |-> {}, flow |-> {}], cmdpre |-> <<>>, cmdname |-> "none", cmdids |-> {},
+                  trig |-> [ids |-> {}, done |-> {}, n |-> <<>>, dflt |-> FALSE, live |-> {}, stale |-> {}, ran |-> {}], clock |-> 0, dueprev |-> {}, cmdStop |-> NoPoint, rm |-> [active |-> FALSE, ok |-> FALSE, ids |-> {}, flow |-> {}], cmdpre |-> <<>>, cmdname |-> "none", cmdids |-> {},
                   cmdflow |-> {}, forcedSince |-> {}, completedIn |-> {}, flowctr |-> 0]
         /\ viol = {}
         /\ cov = {}
